@@ -168,10 +168,46 @@ struct Decomp : public crab::cfg::statement_visitor<std::string, ikos::z_number,
   }
   void visit(callsite_t &) override { unsupported = true, what = "callsite"; }
   void visit(intrinsic_t &) override { unsupported = true, what = "intrinsic"; }
-  void visit(arr_init_t &) override { unsupported = true, what = "array statement"; }
-  void visit(arr_store_t &) override { unsupported = true, what = "array statement"; }
-  void visit(arr_load_t &) override { unsupported = true, what = "array statement"; }
-  void visit(arr_assign_t &) override { unsupported = true, what = "array statement"; }
+  void visit(arr_init_t &s) override {
+    Stmt t;
+    t.kind = S_ARR_INIT;
+    t.lhs = vi(s.array());
+    t.k = (int64_t)from_z(s.elem_size().constant());
+    t.e1 = le(s.lb_index());
+    t.e2 = le(s.ub_index());
+    t.e3 = le(s.val());
+    out.push_back(t);
+  }
+  void visit(arr_store_t &s) override {
+    Stmt t;
+    t.lhs = vi(s.array());
+    t.k = (int64_t)from_z(s.elem_size().constant());
+    t.e1 = le(s.lb_index());
+    t.e3 = le(s.value());
+    t.flag = s.is_strong_update();
+    if (s.lb_index().equal(s.ub_index())) t.kind = S_ARR_STORE;
+    else {
+      t.kind = S_ARR_STORE_RANGE;
+      t.e2 = le(s.ub_index());
+    }
+    out.push_back(t);
+  }
+  void visit(arr_load_t &s) override {
+    Stmt t;
+    t.kind = S_ARR_LOAD;
+    t.lhs = vi(s.lhs());
+    t.a = vi(s.array());
+    t.k = (int64_t)from_z(s.elem_size().constant());
+    t.e1 = le(s.index());
+    out.push_back(t);
+  }
+  void visit(arr_assign_t &s) override {
+    Stmt t;
+    t.kind = S_ARR_ASSIGN;
+    t.lhs = vi(s.lhs());
+    t.a = vi(s.rhs());
+    out.push_back(t);
+  }
 };
 
 // observable summary of one completed execution
@@ -250,7 +286,8 @@ void run_xform_case(Ctx &ctx, int64_t kase, Rng &r, const DomInfo &) {
   Caps caps;
   caps.bools = r.chance(2, 3);
   caps.calls = false;
-  caps.arrays = false;
+  caps.arrays = r.chance(1, 2);
+  caps.array_heavy = caps.arrays && r.coin();
   caps.big_consts = false;
   caps.max_blocks = 4 + r.below(10);
   Prog p;
@@ -270,6 +307,8 @@ void run_xform_case(Ctx &ctx, int64_t kase, Rng &r, const DomInfo &) {
   // no nondeterministic statement, no statement that can fail when removed
   for (auto &b : fn.blocks)
     for (auto &s : b.stmts) {
+      if (s.kind == S_ARR_STORE && r.chance(1, 3)) s.flag = true; // liveness must not treat a strong update as a definition of the whole array
+      if (s.kind == S_HAVOC && p.vars[s.lhs].ty == T_ARR) continue;
       if (s.kind == S_HAVOC) {
         if (p.vars[s.lhs].ty == T_BOOL) {
           s.kind = S_BASSIGN_VAR;
@@ -282,6 +321,28 @@ void run_xform_case(Ctx &ctx, int64_t kase, Rng &r, const DomInfo &) {
       }
       if (s.kind == S_BINOP && (s.op == B_SDIV || s.op == B_UDIV || s.op == B_SREM || s.op == B_UREM) && (!s.b_is_const || s.k == 0)) s.op = r.coin() ? B_ADD : B_SUB;
     }
+  if (caps.arrays && !g.arrs.empty()) {
+    std::vector<Stmt> pro;
+    for (int a : g.arrs) {
+      Stmt s;
+      s.kind = S_ARR_INIT;
+      s.lhs = a;
+      s.k = g.arr_esz[a];
+      s.e1 = LinExp(0);
+      s.e2 = LinExp(g.arr_esz[a] * r.range(6, 12));
+      s.e3 = LinExp(r.range(-5, 9));
+      pro.push_back(s);
+    }
+    if (g.arrs.size() >= 2 && r.coin()) { // a_out := a_in, the idiom for in/out array parameters
+      Stmt s;
+      s.kind = S_ARR_ASSIGN;
+      s.lhs = g.arrs[0];
+      s.a = g.arrs[1];
+      pro.push_back(s);
+    }
+    auto &eb = fn.blocks[fn.entry].stmts;
+    eb.insert(eb.begin(), pro.begin(), pro.end());
+  }
   std::vector<int> ints = g.ints, bools = g.bools;
   {
     std::vector<int> c32;
